@@ -56,6 +56,10 @@ class CriticalPathCalculator:
         self.__tasks: Dict[Any, Task] = {}
         self.__end_date = end_date
 
+        tasks = list(tasks)
+        # Only the given tasks take part: predecessors from outside (i.e. from another project) are ignored
+        self.__scope = set(id(t) for t in tasks)
+
         for t in tasks:
             if end_date is not None:
                 if t.end == end_date:
@@ -73,12 +77,34 @@ class CriticalPathCalculator:
         self.__tasks[task.id] = task
 
         p_ids = []
-        for p in task.predecessors:
+        for p in self.__effective_predecessors(task):
             p_ids.append(p.id)
             self.__insert_task(p)
 
         # Exact arithmetic: float rounding (0.1 + 0.2 != 0.3) must not hide a zero slack in calc()
         self.__add_work(task.id, max(_exact(task.estimate) - _exact(task.spent), 0), p_ids)
+
+    def __leaves(self, task: Task) -> List[Task]:
+        """Leaf tasks of the task's subtree (the task itself, if it has no children) among the given tasks"""
+        if len(task.children) == 0:
+            return [task] if id(task) in self.__scope else []
+        res = []
+        for ch in task.children:
+            res += self.__leaves(ch)
+        return res
+
+    def __effective_predecessors(self, task: Task) -> List[Task]:
+        """
+        A dependency declared on a summary task binds all its leaves, on both sides: a leaf waits for
+        every leaf of every predecessor declared on the leaf itself or on any of its parents
+        """
+        res = []
+        for t in [task] + list(task.all_parents):
+            for p in t.predecessors:
+                for leaf in self.__leaves(p):
+                    if not any(leaf is r for r in res):
+                        res.append(leaf)
+        return res
 
     def __new_node(self) -> _PNode:
         res = _PNode()
